@@ -55,8 +55,8 @@ func init() {
 // ---- type terms ---------------------------------------------------------------------------------------
 
 type ty struct {
-	tag    string // int str enum arr var opt any undef bool al
-	lo, hi *int64 // int / str bounds (nil = default)
+	tag    string // int str enum arr var opt any undef bool al flt num
+	lo, hi *int64 // int / str bounds (nil = default); flt: the IEEE bits of the bound
 	kids   []*ty
 	strs   []string // enum values / struct member names
 	opts   []bool   // struct: the member's key is Optional[…]
@@ -71,10 +71,35 @@ func bound(e sx.Sexp) *int64 {
 	return &n
 }
 
+// fbound: `d` or the IEEE bits of a float bound (decimal uint64), kept in an int64
+func fbound(e sx.Sexp) *int64 {
+	if !e.IsList && e.Atom == "d" {
+		return nil
+	}
+	u, err := strconv.ParseUint(e.Atom, 10, 64)
+	if err != nil || e.IsList {
+		panic(fmt.Errorf("bad float bound %s", e))
+	}
+	n := int64(u)
+	return &n
+}
+
+// fstr renders a float bound as Puppet source (always with a fraction or an exponent, so that it lexes as a float)
+func fstr(b *int64) string {
+	if b == nil {
+		return "default"
+	}
+	s := strconv.FormatFloat(math.Float64frombits(uint64(*b)), 'f', -1, 64)
+	if !strings.ContainsAny(s, ".") {
+		s += ".0"
+	}
+	return s
+}
+
 func tyOf(e sx.Sexp) *ty {
 	if !e.IsList {
 		switch e.Atom {
-		case "int", "str", "any", "undef", "bool":
+		case "int", "str", "any", "undef", "bool", "flt", "num":
 			return &ty{tag: e.Atom}
 		}
 		panic(fmt.Errorf("bad type %s", e))
@@ -86,6 +111,11 @@ func tyOf(e sx.Sexp) *ty {
 			panic(fmt.Errorf("bad type %s", e))
 		}
 		return &ty{tag: e.Tag(), lo: bound(a[0]), hi: bound(a[1])}
+	case "flt":
+		if len(a) != 2 {
+			panic(fmt.Errorf("bad type %s", e))
+		}
+		return &ty{tag: "flt", lo: fbound(a[0]), hi: fbound(a[1])}
 	case "enum":
 		t := &ty{tag: "enum"}
 		for _, s := range a {
@@ -208,6 +238,13 @@ func (t *ty) src(env map[string]*ty, depth int) string {
 			ks[i] = k.src(env, depth)
 		}
 		return "Variant[" + strings.Join(ks, ",") + "]"
+	case "flt":
+		if t.lo == nil && t.hi == nil {
+			return "Float"
+		}
+		return "Float[" + fstr(t.lo) + "," + fstr(t.hi) + "]"
+	case "num":
+		return "Numeric"
 	case "any":
 		return "Any"
 	case "undef":
@@ -816,7 +853,7 @@ func execNewM(c px.Context, args []sx.Sexp) core.Result {
 	var vals []px.Value
 	for _, e := range args[1].Args() {
 		switch e.Tag() {
-		case "i", "s", "b", "u", "a", "d", "h":
+		case "i", "s", "b", "u", "a", "d", "h", "f":
 		default:
 			return core.Result{Out: "bad-op", Pred: "FAIL harness-bad-op value"}
 		}
@@ -861,6 +898,8 @@ func alphaStr(v px.Value) string {
 		return "(s " + sx.Str(v.String()).String() + ")"
 	case px.Boolean:
 		return "(b " + sx.B(v.Bool()) + ")"
+	case px.Float:
+		return "(f " + strconv.FormatUint(math.Float64bits(v.Float()), 10) + ")"
 	case *types.UndefValue:
 		return "(u)"
 	case *types.DefaultValue:
